@@ -467,6 +467,12 @@ pub fn check_case(prop: &str, g: &GCtx, e: &RuleEntry, input: &str) -> Result<Ca
     let mut out = CaseOut::default();
     if o.diverged {
         out.skipped = Some("oracle_diverged");
+        if let Ok(p) = std::env::var("VERIF_DEBUG_DIVERGED") {
+            use std::io::Write;
+            if let Ok(mut f) = std::fs::OpenOptions::new().create(true).append(true).open(p) {
+                let _ = writeln!(f, "{}", serde_json::json!({"grammar": g.text, "rule": e.rule, "input": input}));
+            }
+        }
         return Ok(out);
     }
     let st = &o.stats;
